@@ -129,3 +129,30 @@ func init() {
 		propMeta[id] = m
 	}
 }
+
+// wave 7 (faults: connection-level events, time and restarts, failing dependencies)
+var addedRulesW7 = map[string]string{
+	"C01": " The remote desktop host may hang up on its own (right after accepting, after its banner, or with a reset).",
+	"C05": " One request kind: a client that closes or half-closes right after its request while the authentication service takes 1-3 s to answer (nobody was confirmed).",
+	"C06": " 1 run in 8 has the client silent on its open channel for 6-16 minutes (longer than every cache lifetime inside the gateway) before it carries on; the silence starts only when the gateway has answered what was sent and every other tunnel is set up.",
+	"C07": " 1 run in 8 has one legacy session silent for 6-16 minutes, after which somebody else knocks (an RDG_OUT_DATA request that goes no further); 1 run in 8 starts after somebody else presented a cookie with a revoked access token 3-6 times.",
+	"C09": " A quarter of the runs configure an idle timeout of 1-3 minutes; half of their sessions pause for 2-9 s in mid-session.",
+	"C10": " The realm's KDC answers properly or with something that is not a framed reply (length prefix with the top bit set, 0xffffffff, text); well-formed KDC-proxy requests are among the bodies; NTLM authenticate messages also come in the three shorter layouts (72-, 64- and 52-byte fixed part) for existing and unknown users.",
+	"C11": " 1 legacy run in 6 outlives every cache lifetime (6-16 minutes pass) before the tunnel ends.",
+	"C12": " Browsers may use a new source port for every request; a quarter of the providers leave out expires_in; a third of the second downloads happen in the same session from another address; 1 file in 6 is downloaded again from a cut point with Range and If-Range (an assembled file must be one file whose token verifies).",
+	"C13": " Browsers may use a new source port for every request; a quarter of the providers leave out expires_in; failure kind 'callback URL of somebody else's completed login replayed' (the provider refuses the code, or is down).",
+	"C14": " Entropy of the helper: healthy, unavailable at start, or one byte per read (then forty clients negotiate and no two may get the same challenge); pairs of sessions share an address; unknown users are also tried with predictable passwords (empty, zeros); 1 run in 250 has 4200 abandoned exchanges that lapse before a login.",
+	"C15": " 1 run in 6 also presents a token minted under the same keys by a sibling instance whose clock is 5-90 s ahead (must be accepted).",
+	"C16": " Unreachable hosts are unreachable in three ways (refused, black hole, local failure with a drawn errno such as EMFILE or EADDRNOTAVAIL); 1 run in 5 revokes the user's access token after the tunnel was created.",
+	"C17": " 1 run in 8 starts after 5-8 refused handshakes from the same client machine.",
+	"C18": " A third of the runs use the file session store; under the entropy fault an access cookie forged with the empty or short key must be refused.",
+	"C20": " Further KDC behaviours: a well-formed KRB-ERROR as reply (relayed as it is), garbage instead of a framed reply, a KDC that accepts and never reads, a KDC that drops the first connection and is silent afterwards.",
+}
+
+func init() {
+	for id, a := range addedRulesW7 {
+		m := propMeta[id]
+		m.Rule += a
+		propMeta[id] = m
+	}
+}
